@@ -340,6 +340,24 @@ pub fn coherent(b: &Board) -> Result<(), String> {
             white | black
         ));
     }
+    // the accessor aliases read the same derived data: get2, piece2, king_pos
+    for i in 0..64 {
+        let c = owlchess::Coord::from_index(i);
+        if b.get2(c.file(), c.rank()) != raw.cells[i] || b.get(c) != raw.cells[i] || raw.get2(c.file(), c.rank()) != raw.cells[i] {
+            return Err(format!("get / get2 on square {} differ from the stored cell", i));
+        }
+    }
+    for i in 1..13 {
+        let cell = owlchess::Cell::from_index(i);
+        if let (Some(col), Some(p)) = (cell.color(), cell.piece()) {
+            if b.piece2(col, p).as_raw() != pieces[i] {
+                return Err(format!("piece2 set [{}] {:#x} != rebuilt {:#x}", i, b.piece2(col, p).as_raw(), pieces[i]));
+            }
+            if p == owlchess::Piece::King && pieces[i].count_ones() == 1 && b.king_pos(col).index() != pieces[i].trailing_zeros() as usize {
+                return Err(format!("king_pos({:?}) = {} but the king stands on {}", col, b.king_pos(col).index(), pieces[i].trailing_zeros()));
+            }
+        }
+    }
     for i in 0..13 {
         if f.pieces[i] != pieces[i] {
             return Err(format!(
